@@ -45,7 +45,9 @@ theorem facts_pinned :
     Facts.C04.searchTracksPositions = true ∧
     Facts.C04.rowsBoundByTotalRows = true ∧
     Facts.C04.checkSheetBoundsRows = true ∧
-    Facts.C04.checkRowSizesByGreatest = true := by decide
+    Facts.C04.checkRowSizesByGreatest = true ∧
+    Facts.C04.getMergeCellsInPlace = false ∧
+    Facts.C04.getRowsReturnsMaxRows = true := by decide
 
 /-- clause "every Get*, Rows, Cols, SearchSheet": the exported read functions of
 `*File` are exactly the ones the purity / no-panic oracle draws from; a new getter
@@ -63,17 +65,14 @@ theorem getters_covered : Facts.C04.getters =
      "GetSlicers", "GetStyle", "GetTables", "GetWorkbookProps", "Rows", "SearchSheet"] := by
   decide
 
-/-- clause "read-only calls are pure", syntactic side: among the bodies of all exported read
-functions of `*File` exactly one assigns to a field or element of an object that is not a
-fresh local (named result, `var`, composite literal, `make`, `new`): `GetConditionalStyle`
-writes the default pattern type into the shared `dxf` — open finding
-`purity:saved:GetConditionalStyle:dxf-pattern-type`, reproduced by the harness witness. Any
-other such write appearing in a getter body breaks this theorem. (Writes inside callees —
-`getValueFrom`, `prepareSheetXML`, `mergeOverlapCells` — are covered by their own facts and
-by the twin-run oracle.) -/
-theorem getter_shared_writes_pinned :
-    Facts.C04.getterSharedWrites = ["GetConditionalStyle:xf.Fill.PatternFill.PatternType"] := by
-  decide
+/-- clause "read-only calls are pure", syntactic side: in the bodies of all exported read
+functions of `*File` no assignment targets a field or element of an object that is not a
+fresh local (named result, `var`, composite literal, `x := *p`, `make`, `new`). The scan had
+isolated `GetConditionalStyle` writing the default pattern type into the shared `dxf`
+(repaired: it now writes to a copy); any such write appearing in a getter body breaks this
+theorem. (Writes inside callees — `getValueFrom`, `prepareSheetXML`, `mergeOverlapCells` — are
+covered by their own facts and by the twin-run oracle.) -/
+theorem getter_shared_writes_pinned : Facts.C04.getterSharedWrites = [] := by decide
 
 /-! ## All read paths agree -/
 
@@ -94,6 +93,19 @@ theorem readers_agree (s : Sheet) (h : WF s) (ha : RowAttrsOK s) (c r : Nat) (hc
   have hc' : c - 1 + 1 = c := by omega
   rw [hc'] at this
   exact this
+
+/-- clause "return normally": on a sheet whose `r` attributes are within `TotalRows` (every
+sheet inside the grid) `GetRows` returns no error … -/
+theorem getRows_no_error (s : Sheet) (ha : RowAttrsOK s) : getRowsErr s = false := by
+  have := foldl_rowStep_not_stopped s ⟨0, 0, ⟨0, []⟩, [], false⟩ rfl ha
+  simp [getRowsErr, this]
+
+/-- … and a row number beyond the limit is reported (`ErrMaxRows`) instead of silently ending
+the result (repaired defect: `GetRows` used to drop the row it was building and return nil). -/
+theorem getRows_reports_row_limit (s : Sheet) (h : ∃ r ∈ s, r.r > Facts.TotalRows) :
+    getRowsErr s = true := by
+  have := foldl_rowStep_stopped s ⟨0, 0, ⟨0, []⟩, [], false⟩ (Or.inr h)
+  simp [getRowsErr, this, facts_pinned.2.2.2.2.2.2.2.2.2.2.2.2.2.2]
 
 /-- clause "GetCellValue agrees": on a cached worksheet (every row and cell carries
 its reference) the lookup of `getCellStringFunc`, including its `row > lastRowNum`
@@ -187,17 +199,27 @@ rendering `getValueFrom` computed (it used to be that rendering: `1.000000000000
 theorem getCellValue_keeps_stored (v norm : Val) : storedAfterFormattedRead v norm = v := by
   simp [storedAfterFormattedRead, facts_pinned.2.2.2.2.2.1]
 
-/-- open finding `purity:obs:GetMergeCells:overlapping-merges`, on C03's merge list model:
-with the overlapping ranges D8:F10 and B7:D9 (both accepted by `MergeCell`), `GetCellValue(E7)`
-returns E7's own value; after `GetMergeCells` (which replaces the list by the single range
-B7:F10, in place) the same call is redirected to B7 and returns the empty string. -/
-theorem finding_getMergeCells_overlapping :
+/-- clause "read-only calls are pure", `GetMergeCells`: the merge list of the worksheet after
+the call is the list before it (the overlapping ranges are merged on a copy), hence
+`GetCellValue` through `mergeCellsParser` answers as before for every cell. -/
+theorem getMergeCells_pure (s : Sheet) (ms : List Grid.MObj) :
+    getMergeCellsState ms = ms ∧
+    ∀ c r, getCellValueM s (getMergeCellsState ms) c r = getCellValueM s ms c r := by
+  have h : getMergeCellsState ms = ms := by
+    simp [getMergeCellsState, facts_pinned.2.2.2.2.2.2.2.2.2.2.2.2.2.1]
+  exact ⟨h, fun c r => by rw [h]⟩
+
+/-- regression witness of the repaired defect `purity:obs:GetMergeCells:overlapping-merges`, on
+C03's merge list model: with the overlapping ranges D8:F10 and B7:D9 (both accepted by
+`MergeCell`) `GetCellValue(E7)` returns E7's own value; had `GetMergeCells` replaced the list by
+its normal form (the single range B7:F10), the same call would be redirected to B7. -/
+theorem regression_getMergeCells_in_place :
     let s : Sheet := (List.range 7).map fun i =>
       ⟨i + 1, false, if i = 6 then [⟨5, 7, ['v'], false, false⟩] else []⟩
     let ms := [mrange 4 8 6 10, mrange 2 7 4 9]
     getCellValueM s ms 5 7 = ['v'] ∧
-    getMergeCellsState ms = [mrange 2 7 6 10] ∧
-    getCellValueM s (getMergeCellsState ms) 5 7 = [] := by decide
+    Grid.mergeOverlapCells ms = [mrange 2 7 6 10] ∧
+    getCellValueM s (Grid.mergeOverlapCells ms) 5 7 = [] := by decide
 
 /-- regression witness of the repaired defect: with the old body (`prepareSheetXML`)
 row 5 of an empty sheet turns visible after reading the style of A10. -/
